@@ -82,6 +82,8 @@ def specs(draw):
     modes = draw(st.integers(1, 8))
     hetero = draw(st.integers(0, 5)) == 0
     spec = {"kind": kind, "dim": dim, "cls": cls, "hetero": hetero, "build": draw(st.sampled_from(["ctor", "ctor", "append"]))}
+    # optional additional information stored alongside (file attributes); it must not influence what is read back
+    spec["info"] = draw(st.sampled_from([None, None, {}, {"comment": "x", "n": 3}, {"time": 5, "droplet_class": "SphericalDroplet", "times": [1, 2]}]))
     if kind == "Emulsion":
         spec["members"] = [draw(member(dim, cls, modes, hetero))]
     elif kind == "DropletTrack":
@@ -186,7 +188,11 @@ class C08(Property):
         if os.path.exists(path):
             os.remove(path)
         try:
-            obj.to_file(path)
+            if spec.get("info") is not None and kind != "Emulsion":
+                obj.to_file(path, info=dict(spec["info"]))
+                ctx.cls("with-info")
+            else:
+                obj.to_file(path)
         except Exception as exc:  # noqa: BLE001 - "writing either succeeds or raises"
             ctx.cls("write-refused:" + type(exc).__name__)
             if not spec["hetero"]:
